@@ -613,3 +613,70 @@ def propagate_option_locals(facts):
         hb["body"] = rec(hb["body"])
         done[hb["path"]] = sorted(n["pat"]["name"] for n, _ in subs.values())
     return done
+
+
+
+# ------------------------------------------------------------------ locals grouped into a new private struct
+def scalarise_new_structs(facts, reference_structs):
+    """`let mut a = S::default(); a.x = ..; if a.y ..` for a struct S the reviewed tree does not have, when `a` is only ever used through
+    its fields: the fields are presented as the separate locals they stand for (HIR view). Returns {function: {struct local: [fields]}}."""
+    from .facts import walk_with_parents
+    structs = {}
+    for it in facts.items:
+        if it.get("crate") == VISITOR_CRATE and it.get("kind") == "struct" and it["path"] not in reference_structs and it.get("variants"):
+            structs[it["path"]] = it["variants"][0]["fields"]
+    done = {}
+    if not structs:
+        return done
+
+    def strip_ref(e):
+        while isinstance(e, dict) and (e.get("k") in ("Ref", "Paren", "DropTemps") or (e.get("k") == "Unary" and e.get("op") == "*")):
+            e = e["e"]
+        return e
+    for hb in facts.hir:
+        if hb["crate"] != VISITOR_CRATE or hb.get("mac"):
+            continue
+        lets = []
+        for n, ps in walk_with_parents(hb["body"]):
+            if n.get("k") == "Let" and n["pat"].get("k") == "PBind" and (n["pat"].get("ty") or "") in structs and n.get("init") is not None and ps \
+                    and ps[-1].get("k") == "Block":
+                lets.append((n, ps[-1]))
+        for let, blk in lets:
+            bid = let["pat"]["id"]
+            sname = let["pat"]["ty"]
+            fields = structs[sname]
+            init = strip_ref(let["init"])
+            if init.get("k") == "Struct" and init.get("base") is None and not init.get("base_default"):
+                inits = {f["name"]: f["e"] for f in init["fields"]}
+            elif init.get("k") in ("Call", "MethodCall") and (init.get("callee") or "").endswith("Default::default"):
+                inits = {}
+            else:
+                continue
+            uses = [n for n in walk(hb["body"]) if n.get("k") == "Path" and n["res"].get("r") == "local" and n["res"].get("id") == bid]
+            fnodes = [n for n in walk(hb["body"]) if n.get("k") == "Field" and strip_ref(n["e"]) is not None and strip_ref(n["e"]).get("k") == "Path"
+                      and strip_ref(n["e"])["res"].get("r") == "local" and strip_ref(n["e"])["res"].get("id") == bid]
+            if not uses or len(uses) != len(fnodes):
+                continue
+            ids = {f["name"]: bid * 1000 + 7 + i for i, f in enumerate(fields)}
+            for fnode in fnodes:
+                name = fnode["name"]
+                if name not in ids:
+                    break
+                ty, sp = fnode.get("ty"), fnode.get("sp")
+                fnode.clear()
+                fnode.update({"k": "Path", "sp": sp, "res": {"r": "local", "name": name, "id": ids[name]}, "ty": ty})
+            new_lets = []
+            for f in fields:
+                fty = f.get("ty")
+                if f["name"] in inits:
+                    e = inits[f["name"]]
+                elif fty == "bool":
+                    e = {"k": "Lit", "sp": let.get("sp"), "lit": "bool", "v": False, "ty": "bool"}
+                else:
+                    e = {"k": "Call", "sp": let.get("sp"), "callee": "core::default::Default::default", "args": [], "ty": fty}
+                new_lets.append({"k": "Let", "sp": let.get("sp"), "pat": {"k": "PBind", "sp": let["pat"].get("sp"), "name": f["name"], "id": ids[f["name"]],
+                                                                    "mode": "BindingMode(No, Mut)", "ty": fty}, "init": e})
+            i = next(k for k, st in enumerate(blk["stmts"]) if st is let)
+            blk["stmts"][i:i + 1] = new_lets
+            done.setdefault(hb["path"], {})[let["pat"].get("name")] = [f["name"] for f in fields]
+    return done
